@@ -24,7 +24,9 @@ def gen_tree(rng, base):
         if rng.random() < 0.5:
             p = Pkg(f"dep{i}", f"{base}/app/build/packages/dep{i}", "registry")
         else:
-            p = Pkg(f"lib{i}", f"{base}/lib{i}", "path")
+            # a path dependency may live anywhere, also under a directory that merely looks like part of build/packages
+            where = rng.choice([f"{base}/lib{i}", f"{base}/lib{i}", f"{base}/packages/lib{i}", f"{base}/build/lib{i}", f"{base}/vendor/packages/lib{i}"])
+            p = Pkg(f"lib{i}", where, "path")
         pkgs.append(p)
     # dependency edges: app depends on a subset; some dependencies depend on others (transitive)
     for p in pkgs[1:]:
@@ -247,11 +249,14 @@ def run_e2e(res, tb, pkgs):
                 if target is not None and not visible:
                     res.add_violation("C17/import-of-transitive-dependency-resolves", f"module {p.files[path][0]} of {p.name}, not a direct dependency of the application, resolves to {target}",
                                       {"tree": tb, "file": text, "answer": r})
-            # external packages are navigable, not editable
-            if target is not None and p.kind == "registry":
+            # external packages are navigable, not editable; everything else is the user's own code
+            if target is not None:
                 pr = c.request("textDocument/prepareRename", {"textDocument": {"uri": uri}, "position": {"line": line, "character": col}}, timeout=20)
-                if pr is not None and "error" not in pr and pr.get("result"):
+                accepted = pr is not None and "error" not in pr and bool(pr.get("result"))
+                if p.kind == "registry" and accepted:
                     res.add_violation("C17/external-package-renameable", f"prepare-rename accepts `f_{p.name}` defined in build/packages", {"tree": tb, "answer": pr})
+                if p.kind != "registry" and pr is not None and not accepted:
+                    res.add_violation("C17/local-package-not-renameable", f"prepare-rename refuses `f_{p.name}` of the {p.kind} package at {p.root.replace(tb, '')} (not under build/packages)", {"tree": tb, "answer": pr})
     finally:
         c.close()
 
